@@ -52,7 +52,7 @@ def model_phase(R):
     res = tlc.run("OASLifecycle", "Lifecycle_full.cfg", workers=4, coverage=True, extra_files={"CompTable.tla": tla})
     if res["violated"]:
         raise MachineryError("OASLifecycle: %s violated on the extracted table (spec error)\n%s" % (res["violated"], "\n".join(res["trace"][-1:])))
-    for act in ("SetPoint", "RunModel", "Totals", "CheckPartials"):
+    for act in ("SetPoint", "RunModel", "Totals", "CheckPartials", "Resetup"):
         if res["coverage"].get(act, (0, 0))[1] == 0:
             raise MachineryError("vacuous: action %s never taken in Lifecycle_full" % act)
     R.add_tlc(res)
@@ -128,6 +128,10 @@ def _trace_history_job(a):
         for ev in hist:
             if ev[0] == "set":
                 L.set_point(ev[1])
+            elif ev[0] == "setup":
+                L.m.resetup()
+                L.set_point(L.pt)
+                ran = None
             elif ev[0] == "run":
                 L.run(ev[1] if len(ev) > 1 else "solve_first")
                 ran = L.pt
@@ -181,6 +185,16 @@ def _compzero_job(a):
     L.set_point(pt)
     L.run()
     return (kind + "@" + pt, compzero.component_cases(L.m.prob))
+
+
+def _resetup_job(a):
+    from .. import compzero
+
+    kind, pt = a
+    L = lifecycle.Live(kind)
+    L.set_point(pt)
+    L.run()
+    return (kind + "@" + pt, compzero.resetup_cases(L.m.prob))
 
 
 def run(tier, only=None):
@@ -254,6 +268,15 @@ def run(tier, only=None):
             R.case(["component_zero", kind, cls, what], verdict != "skipped", sample={"component": cls, "zeroed": what, "verdict": verdict} if ncz % 61 == 0 else None, section="component_special_values")
             if verdict in ("deviates", "exception_only_after_history"):
                 R.violation("component_zero:%s:%s" % (cls, what), {"kind": kind, "component": cls, "zeroed_input": what, "detail": detail})
+    # Resetup at system granularity: every component and library group alone, Problem.setup() called again on the same instance
+    # (unchanged, and after the control points of its surface dictionaries were edited in place)
+    nrs = 0
+    for kind, cases in check_exc(pmap(_resetup_job, [(k, "p0") for k in (KINDS["thorough"] if tier == "thorough" else ["aero2", "aerog", "as_tube", "as_wingbox", "multipoint", "struct"])])):
+        for cls, what, verdict, detail in cases:
+            nrs += 1
+            R.case(["system_resetup", kind, cls, what], verdict != "skipped", sample={"system": cls, "what": what, "verdict": verdict} if nrs % 53 == 0 else None, section="system_resetup")
+            if verdict in ("deviates", "exception_only_after_history"):
+                R.violation("system_resetup:%s:%s" % (cls, what), {"kind": kind, "system": cls, "what": what, "detail": detail})
     # mode T: recorded executions validated by TraceLifecycle
     long_h = sorted((h for h in hs if len(h) >= DEPTH[tier]), key=lambda h: -sum(1 for e in h if e[0] in ("totals", "check")))[: (4 if tier == "quick" else 24)]
     tjobs = [(k, concretise(k, h, i)) for k in kinds[:2] for i, h in enumerate(long_h)]
@@ -282,6 +305,7 @@ def run(tier, only=None):
         "traces_validated": traces,
         "kinds": kinds,
         "component_table": {c["class"]: {"caches": c["caches"], "lu": c["lu_refresh"]} for c in tab["components"] if c["caches"] or c["lu"]},
+        "setup_stateful": tab.get("setup_stateful", {}),
         "raw_accumulated_blocks": {c["class"]: [k for k, b in c["blocks"].items() if b["policy"] == "accum_raw"] for c in tab["components"] if any(b["policy"] == "accum_raw" for b in c["blocks"].values())},
     }
     return R.finish(extra)
